@@ -196,10 +196,15 @@ impl<CS: CLCiphersuite> PoKSignature<CL03<CS>> {
                         return false;
                     }
 
-                    let boolean_rproofs_mi = CLSPoK
+                    let rproof_mi = CLSPoK
                         .range_proofs_commited_mi
                         .get(idx)
-                        .expect("index overflow")
+                        .expect("index overflow");
+                    if cmi.value != rproof_mi.E {
+                        println!("Commitment on 'mi' used in the Proof of Knowledge different from the one used in the Range Proof!");
+                        return false;
+                    }
+                    let boolean_rproofs_mi = rproof_mi
                         .verify::<CS::HashAlg>(
                             &gi,
                             &commitment_pk.h,
@@ -436,6 +441,10 @@ impl<CS: CLCiphersuite> ZKPoK<CL03<CS>> {
                 return false;
             }
             let rproof_mi = zkpok.range_proofs_mi.get(idx).expect("index overflow");
+            if proof_mi.commitment.value != rproof_mi.E {
+                println!("Commitment on m{} used in the Proof of Knowledge different from the one used in the Range Proof!", i);
+                return false;
+            }
             let boolean_rproof_mi =
                 rproof_mi.verify::<CS::HashAlg>(&ai, &signer_pk.b, &signer_pk.N, &min_x, &max_x);
             if !boolean_rproof_mi {
@@ -457,6 +466,10 @@ impl<CS: CLCiphersuite> ZKPoK<CL03<CS>> {
             return false;
         }
 
+        if zkpok.proof_r.commitment.value != zkpok.range_proof_r.E {
+            println!("Commitment on r used in the Proof of Knowledge different from the one used in the Range Proof!");
+            return false;
+        }
         let min_r = Integer::from(0);
         let max_r = Integer::from(2).pow(CS::ln) - 1;
         let boolean_rproof_r = zkpok.range_proof_r.verify::<CS::HashAlg>(
